@@ -442,6 +442,13 @@ MODEL_ATOMS = [
     ("ATOM", 302, "C5'", "DA5", "A", 13, "", 10.0, 100.0, 1000.0, -0.0069, 1.908),
     ("ATOM", 303, "CA", "CYX", "D", 1000, "", 4321.0005, 0.1, -0.1, 0.0001, 0.0001),
     ("ATOM", 304, "CA", "HIS", "A", 52, "A", 1.0, 2.0, 3.0, 0.0188, 1.908),
+    # written one after the other, as in a file: neighbours that differ in one identifying field only (insertion code, chain, number, residue name)
+    ("ATOM", 305, "CA", "HIS", "A", 52, "B", 1.5, 2.5, 3.5, 0.0188, 1.908),
+    ("ATOM", 306, "CA", "HIS", "A", 52, "", 2.0, 3.0, 4.0, 0.0188, 1.908),
+    ("ATOM", 307, "CA", "HIS", "B", 52, "", 2.5, 3.5, 4.5, 0.0188, 1.908),
+    ("ATOM", 308, "CA", "HIS", "B", 53, "", 3.0, 4.0, 5.0, 0.0188, 1.908),
+    ("ATOM", 309, "CA", "HID", "B", 53, "", 3.5, 4.5, 5.5, 0.0188, 1.908),
+    ("ATOM", 310, "CB", "HID", "B", 53, "", 4.0, 5.0, 6.0, 0.0188, 1.908),
 ]
 
 
@@ -461,13 +468,14 @@ def rule_model_atoms(prog, rep):
             return got is None or abs(got - want) > tol[field] / 2 + 1e-9  # a value rounded to the stated precision is at most half a unit off
         return got != want
 
+    runners = {False: ObjRunner(prog, "structures.py"), True: ObjRunner(prog, "structures.py")}  # one process writes all atoms, in order
     for rec in MODEL_ATOMS:
         f = dict(zip(keys, rec))
         for chainflag in (False, True):
             a = Obj({"__class__": "Atom", "type": f["type"], "serial": f["serial"], "name": f["name"], "res_name": f["res_name"], "chain_id": f["chain_id"],
                      "res_seq": f["res_seq"], "ins_code": f["ins_code"], "x": f["x"], "y": f["y"], "z": f["z"], "ffcharge": f["charge"],
                      "radius": f["radius"], "alt_loc": "", "occupancy": 1.0, "temp_factor": 0.0, "seg_id": "", "element": "", "charge": "", "residue": None})
-            run = ObjRunner(prog, "structures.py")
+            run = runners[chainflag]
             tag = f"{f['type']}:{f['serial']}|{'--keep-chain' if chainflag else 'no chain'}"
             try:
                 line = run.call(a, "get_pqr_string", chainflag=chainflag)
